@@ -58,8 +58,60 @@ class _Stub:
         return _Resp(self.body, self.status)
 
 
+class _JsonShim:
+    """jsonutils inside _external: a model of ``loads`` for symbolic text
+    (JSON string / true / false / null / number grammar; anything else is
+    concretised and handed to the real decoder)."""
+
+    def __init__(self, real):
+        self._real = real
+
+    def __getattr__(self, name):
+        return getattr(self._real, name)
+
+    def loads(self, s, *a, **k):
+        if not isinstance(s, SymStr):
+            return self._real.loads(s, *a, **k)
+        ws = ' \t\n\r'
+        t = s.strip(ws)
+        if not len(t):
+            raise ValueError('Expecting value')
+        if not isinstance(t, SymStr):
+            return self._real.loads(t, *a, **k)
+        if bool(t[0] == '"'):
+            if len(t) < 2 or not bool(t[-1] == '"'):
+                raise ValueError('Unterminated string')
+            inner = t[1:-1]
+            for c in inner:
+                if bool(c == '"'):
+                    raise ValueError('Extra data')
+                if bool(c == chr(92)):
+                    return self._real.loads(s.concretize(), *a, **k)
+                if isinstance(c, SymStr):
+                    if mkbool(_or([_ch_eq(c.chars[0], o)
+                                   for o in range(32)])):
+                        raise ValueError('Invalid control character')
+                elif ord(c) < 32:
+                    raise ValueError('Invalid control character')
+            return inner
+        for lit, val in (('true', True), ('false', False), ('null', None)):
+            if bool(t == lit):
+                return val
+        numeric = '0123456789+-.eE'
+        if all(bool(mkbool(_or([_ch_eq(ch, ord(x)) for x in numeric])))
+               for ch in chars_of(t)):
+            return self._real.loads(t.concretize() if isinstance(t, SymStr)
+                                    else t, *a, **k)
+        if bool(t[0] == '[') or bool(t[0] == '{'):
+            return self._real.loads(s.concretize(), *a, **k)
+        raise ValueError('Expecting value')
+
+
 def setup():
+    from oslo_policy import _external
     shims.install_parser_shims()
+    if not isinstance(_external.jsonutils, _JsonShim):
+        _external.jsonutils = _JsonShim(_external.jsonutils)
 
 
 def _body_ok(body):
@@ -257,7 +309,7 @@ def run_http(ctx, shape, scheme, ctype, fault, tls, blen):
 
 def cubes_http(tier, seed):
     out = []
-    L = 6 if tier == 'quick' else 8
+    L = 7 if tier == 'quick' else 9
     ctypes = ['application/x-www-form-urlencoded', 'application/json']
     for blen in range(0, L + 1):
         for shape in (SHAPES if blen in (4, 6) else ['direct', 'alias']):
@@ -299,11 +351,13 @@ def evidence(tier):
                    '100..599; faults %r; TLS file situations %r; both '
                    'content types; the check placed in %d expression '
                    'shapes; all subsets of roles {admin, member}' % (
-                       6 if tier == 'quick' else 8, BODY_ALPHABET, FAULTS,
+                       7 if tier == 'quick' else 9, BODY_ALPHABET, FAULTS,
                        TLS, len(SHAPES))},
         'symbols': ['body#i: Int code points', 'status: Int',
                     'role.<r>: Bool'],
-        'stubs': ['_external.requests -> recording stub (symbolic reply '
+        'stubs': ['_external.jsonutils.loads -> model of the JSON grammar '
+                  'for symbolic text (real decoder otherwise)',
+                  '_external.requests -> recording stub (symbolic reply '
                   'body / injected fault)', 'real temporary files for the '
                   'TLS client / CA file checks', 'import-time rewrite of %'],
         'outside_claim': ['bodies longer than the bound', 'characters '
